@@ -423,6 +423,9 @@ class Schedule:  # 0404
         finally:
             self.tcs._release_lock()
 
+        # the fragments received earlier are of the schedule that has just been replaced
+        self._payload_set = list(EMPTY_PAYLOAD_SET)
+
         if force_refresh:
             await self.get_schedule(force_io=True)  # sets self._full_schedule
         else:
